@@ -577,7 +577,7 @@ PROPS = {'C01': {'assumptions': ['hostile bytes inside histories are decoded und
                          'a compile error is reported only after the module failed again when compiled alone (cargo check)',
                          'differences without a recognised root cause are reported under their generic shape class only if nothing in the same program has a '
                          'recognised cause (overlapping defects give unstable shapes); they are counted otherwise'],
-         'budget_quick': 75,
+         'budget_quick': 110,
          'budget_thorough': 360,
          'inconclusive_counters': ['inconclusive:cargo-pipeline-failed', 'inconclusive:prebuild-failed'],
          'lanes_quick': ['D'],
